@@ -7,7 +7,7 @@ from ..core import g_bool, g_list, g_nat, g_opt, g_pair, g_str, g_Z
 from ..driver import Prop
 
 REPRS = ["table", "frame", "json", "grid"]
-NAMES = ["a", "b", "foo", "t1", "a_b", "æ", "x*y"]
+NAMES = ["a", "b", "foo", "t1", "a_b", "æ", "x*y", "_s", "__d", "T", "a.b"]
 OTHER_TYPES = ["METADATA", "DIRECTIVE", "TEMPLATE_ROW", "BLANK"]
 
 
